@@ -166,7 +166,7 @@ def protectSplit (req : Bool) (os : List (Nat Ã— Bytes)) : List (Nat Ã— Bytes) Ã
 /-- the first `switch` of coap_oscore_decrypt_pdu: outer options that are *not* copied -/
 def decryptSkips (n : Nat) : Bool :=
   n = 1 || n = 4 || n = 5 || n = 6 || n = 8 || n = 11 || n = 12 || n = 14 || n = 15 || n = 17 || n = 20 ||
-  n = 23 || n = 27 || n = 28 || n = 60 || n = 258 || n = 252 || n = 292 || n = 9
+  n = 23 || n = 27 || n = 28 || n = 60 || n = 258 || n = 252 || n = 292 || n = 9 || n = 31 || n = 19
 
 /-- outer options are appended in order, then each inner option is inserted (OSCORE is skipped;
 Observe of a response gets the last â‰¤ 3 bytes of `cose->partial_iv`) -/
